@@ -508,6 +508,14 @@ func (x *Exec) call(a *activation, b *ssa.BasicBlock, i int, in *ssa.Call, fr *f
 			return false
 		}
 	}
+	if len(callee.FreeVars) > 0 {
+		x.pendingFV = nil
+		if fv := x.val(fr, cc.Value); fv.k == 'U' && fv.obj != 0 {
+			if o := h.objs[fv.obj]; o != nil && len(o.fields) == len(callee.FreeVars) {
+				x.pendingFV = append([]AV(nil), o.fields...)
+			}
+		}
+	}
 	if x.hypFns[callee] && x.hyp != nil {
 		outs := x.hyp(x, callee, in, args, p)
 		for oi, o := range outs {
@@ -539,7 +547,8 @@ func (x *Exec) call(a *activation, b *ssa.BasicBlock, i int, in *ssa.Call, fr *f
 			return cont
 		}
 	}
-	if ((callee.Pkg == x.c.SLib && !x.cli) || (x.cli && callee.Pkg == x.c.SCLI)) && callee.Blocks != nil && !strings.HasSuffix(x.c.file(callee.Pos()), "_string.go") {
+	synthetic := callee.Pkg == nil && callee.Synthetic != "" && callee.Blocks != nil && (strings.Contains(callee.Synthetic, "bound method") || strings.Contains(callee.Synthetic, "wrapper"))
+	if (((callee.Pkg == x.c.SLib && !x.cli) || (x.cli && callee.Pkg == x.c.SCLI)) && callee.Blocks != nil && !strings.HasSuffix(x.c.file(callee.Pos()), "_string.go")) || synthetic {
 		// inline
 		x.runUp(callee, args, h, p, &stackLink{fr: fr, up: a.up}, func(rets []AV, h2 *Heap, p2 pathInfo, fin *frame) {
 			f2 := fr.clone()
